@@ -17,7 +17,7 @@ func init() { Registry["C09"] = C09 }
 var hostileTexts = [][]byte{
 	{}, []byte("a"), []byte("\n"), []byte("\r\n"), []byte("ab"), []byte("a\r\nb"), []byte("\xc3\xa9"), []byte("\xff"),
 	[]byte("0"), []byte("12"), []byte("a1 b22\n"), []byte("aaaa"), []byte(" "), []byte("_a_"), []byte("Hello, Lilith"),
-	[]byte("x13 x12"), []byte("aabbd"), []byte("(a(b))"), []byte("'q'"), []byte("a,b,c\n1,2,3"),
+	[]byte("x13 x12"), []byte("aabbd"), []byte("a\x00b"), []byte("\x00"), []byte("(a(b))"), []byte("'q'"), []byte("a,b,c\n1,2,3"),
 }
 
 // c09ProcProgram: a terminating transform or predicate applied to arbitrary match text.
